@@ -51,6 +51,8 @@ def audit(name, tier='quick'):
         for f in ('config.h', 'version.h'):
             shutil.copy('/repo/src/ksi/' + f, scratch + '/src/ksi/' + f)
         demo = os.path.join(d, 'demo.c')
+        for k in ('1', '2', '3'):   # some demonstrations write scratch files next to where they were developed
+            os.makedirs(os.path.join(scratch, 'seed_out', k), exist_ok=True)
         env = dict(os.environ, ASAN_OPTIONS='detect_leaks=0')
         if os.path.exists(demo):
             rc, out = build_demo(scratch, demo, '/var/tmp/vf_seed_%s_demo0' % name, meta.get('demo_alloc_seam', False))
